@@ -325,6 +325,49 @@ func runC16(w *World, r *Report) {
 		})
 		rnd := len(f.calls("crypto/rand.Read")) == 1
 		r.check(ok && rnd, "challenge-issue", "dataprovider.Cache.ProvideData", w.Pos(f.fn.Pos()), "challenge = crypto/rand bytes stored under the address", fmt.Sprintf("stored-under-address=%v random=%v", ok, rnd))
+		// every record written by ProvideData carries bytes drawn in THIS call: an old challenge is never
+		// re-stored (with a new deadline), so a challenge lives for one longevity period at most
+		var randBufs []ssa.Value
+		for _, c := range f.calls("crypto/rand.Read") {
+			randBufs = append(randBufs, origins(c.Common().Args[0])...)
+		}
+		fromRand := func(v ssa.Value) bool {
+			for _, o := range origins(v) {
+				for _, rb := range randBufs {
+					if sameVal(o, rb) {
+						return true
+					}
+				}
+			}
+			return false
+		}
+		instrsOf(f.fn, func(in ssa.Instruction) {
+			mu, isMU := in.(*ssa.MapUpdate)
+			if !isMU || !strings.HasSuffix(pathOf(mu.Map), ".data") {
+				return
+			}
+			fresh := false
+			if ld, isLd := mu.Value.(*ssa.UnOp); isLd {
+				if al, isAl := ld.X.(*ssa.Alloc); isAl {
+					for _, ref := range *al.Referrers() {
+						if fa, isFA := ref.(*ssa.FieldAddr); isFA && fieldName(fa.X.Type(), fa.Field) == "raw" {
+							for _, r2 := range *fa.Referrers() {
+								if st, isSt := r2.(*ssa.Store); isSt && st.Addr == ssa.Value(fa) && fromRand(st.Val) {
+									fresh = true
+								}
+							}
+						}
+					}
+					// a whole-struct store (a record read back from the map) makes the bytes old again
+					for _, ref := range *al.Referrers() {
+						if st, isSt := ref.(*ssa.Store); isSt && st.Addr == ssa.Value(al) {
+							fresh = false
+						}
+					}
+				}
+			}
+			r.check(fresh, "challenge-issue", "dataprovider.Cache.ProvideData/record-is-fresh", lineOf(w, mu), "the stored challenge bytes were drawn from crypto/rand in this call", "a record whose bytes were not drawn in this call is stored (an old challenge gets a new deadline)")
+		})
 	}
 
 	// every authorisation check above ends in wallet.Helper.Verify: it must itself be genuine for the address given
